@@ -34,6 +34,12 @@ SPECIAL = [
     'sep line', 'nel\u0085x', 'vt\x0bx', 'ff\x0cx',
     'é', 'Жя', '中文', '{"json": 1}', '}', '..', '...',
 ]
+MARKDOWN = [
+    '```python\nprice = $5 ? `x`\n```', '```c\n#include <x>\n$ @ `\n```',
+    '~~~json\n{$?}\n~~~', '```sh\necho "$HOME" \\\n```', '# Heading',
+    '* item', '> quote', '[link](http://x)', '**bold** _it_', '```',
+    '    code', '| a | b |', '<b>html</b>', '![img](x.png)',
+]
 WORDS = ['alpha', 'beta gamma', 'Fix the bug', 'x', 'line', 'a b c',
          'The quick brown fox', '0', 'end.']
 
@@ -42,7 +48,7 @@ WORDS = ['alpha', 'beta gamma', 'Fix the bug', 'x', 'line', 'a b c',
 def _lines_for(enc):
     out = []
 
-    for pool in (HEADERISH, HUNKISH, SPECIAL, WORDS):
+    for pool in (HEADERISH, HUNKISH, SPECIAL, WORDS, MARKDOWN):
         for ln in pool:
             try:
                 if ln.encode(enc).decode(enc) == ln:
@@ -227,6 +233,16 @@ def preamble_kwargs(draw, eff_parent):
                                                    'dos'])))
     _put(kw, 'mimetype', draw(st.sampled_from([ABSENT, ABSENT, 'text/plain',
                                                'text/markdown'])))
+
+    if kw.get('mimetype') == 'text/markdown' and draw(st.booleans()):
+        # a text that really is Markdown
+        md = [m for m in MARKDOWN if _encodable_in(m, eff)]
+
+        if md:
+            lines = draw(st.lists(st.sampled_from(md), min_size=1,
+                                  max_size=5))
+            kw['text'] = '\n'.join(lines) + draw(st.sampled_from(['', '\n']))
+
     return kw
 
 
